@@ -355,6 +355,11 @@ class KeySpace:
         for o in self.obs:
             if o.nid in obs:
                 p_ = obs[o.nid]
+                if p_.mismatch():
+                    continue
+                if o.mismatch():
+                    obs[o.nid] = o
+                    continue
                 p_.idx_space = join_space(p_.idx_space, o.idx_space)
                 p_.recv_space = join_space(p_.recv_space, o.recv_space)
             else:
@@ -782,7 +787,10 @@ class KeySpace:
             if isp in DEFINITE:
                 self.belief[text] = join_space(prev, isp) if prev != BOT else isp
         if store and isinstance(recv, DictV):
-            recv.key = join(recv.key, idx)
+            nk = join(recv.key, idx)
+            # a container of definite key space keeps it (the conflicting store was recorded above)
+            if not (space_of(recv.key) in DEFINITE and space_of(nk) == MIX):
+                recv.key = nk
             if stored is not None:
                 recv.val = join(recv.val, stored)
         if isinstance(tgt, ast.Name) and isp == UNK and rsp in DEFINITE:
